@@ -14,6 +14,7 @@ def check(tree, rep, tier='quick', seed=0):
     rep.exhaustive = True
     rep.assumptions = ['NOT decided: independence from the attempt order for all schedules additionally needs "no waiter is lost" (C06, not decided by this family); the schedule-permutation hook of the property is a dynamic device and is not used']
     core = get_core(tree)
+    R.k36_mutable_defaults_untouched(core, rep)   # nothing survives from one solve / fill to the next through a default argument
     R.k0_solve_shape(core, rep)          # every requested form is known before the first line is attempted
     an = get_analysis(tree)
     forms = [rel for y in an.cat.years for rel in tree.form_modules(y)]
@@ -30,6 +31,7 @@ def check(tree, rep, tier='quick', seed=0):
     R.k16_determinism(core, rep, extra_modules=forms)
     R.k18_cli_store_identity(core, rep)
     R.k10_refusal(core, rep)             # only a declined prompt stops the questions: file and prompt stay equivalent
+    R.k20_ctrl_c(core, rep)              # a typed answer reaches the store as typed: the same text in the file is used as it is
     R.k11g_parser_objects_untouched(core, rep)
     R.k27_complete_diagnostics(core, rep)
     from .c17 import shared_rule
